@@ -14,6 +14,7 @@ SIZE = {"quick": (6, 8), "thorough": (400, 16)}   # histories, valid blocks per 
 
 COIN_MUTS = {"coins-created", "coins-destroyed", "zero-coin-output"}
 SPEND_MUTS = {"double-spend-in-block", "replayed-spend", "unknown-input", "dup-input"}
+HOURS_MUTS = {"hours-created", "hours-plus-one", "hours-wrap", "legacy-overflow-input-hours-1"}
 
 
 def owner(mut, reason):
@@ -27,12 +28,36 @@ def owner(mut, reason):
             return "C01"
         if mut in SPEND_MUTS:
             return "C02"
-        if mut == "hours-created":
+        if mut in HOURS_MUTS:
             return "C03"
         return "C04"
     if reason == "valid-rejected":
-        return None
+        return "C05" if mut in ("created", "created-pub") else None
+    if reason == "pool":
+        return "C06"
     return "C04"   # stored, head-or-pool, history, rejected-but-changed, length
+
+
+def validate_edges(work, es, chunk=1500):
+    """TLC (LedgerEdges) over a list of edge records; returns ([(index, mut, reason)], states, cmd)."""
+    mism = []
+    states = 0
+    cmd = ""
+    for ci, off in enumerate(range(0, len(es), chunk)):
+        part = os.path.join(work, "edges_%03d.ndjson" % ci)
+        with open(part, "w") as fh:
+            for e in es[off:off + chunk]:
+                fh.write(json.dumps(e) + "\n")
+        r = vlib.run_tlc(SPEC, "LedgerEdges", "LedgerEdges.cfg", os.path.join(work, "tlc_%03d" % ci), files={"edges.ndjson": part},
+                         timeout=1500, heap="6g")
+        if r["violated"] or r["distinct"] != len(es[off:off + chunk]):
+            raise Infra("edge oracle failed or skipped edges: " + r["tail"][-1500:])
+        states += r["distinct"]
+        cmd = r["cmd"]
+        for m in r["mismatches"]:
+            parts = [x.strip().strip('"') for x in m.strip("<>").split(",")]
+            mism.append((off + int(parts[2]) - 1, parts[3], parts[4]))
+    return mism, states, cmd
 
 
 def run(res, prop, tier, seed, work, replay=None):
@@ -49,25 +74,7 @@ def run(res, prop, tier, seed, work, replay=None):
     es = vlib.read_ndjson(edges)
     if not es:
         raise Infra("no edges recorded")
-    # chunked oracle
-    mism = []
-    states = 0
-    cmd = ""
-    CH = 1500
-    for ci, off in enumerate(range(0, len(es), CH)):
-        part = os.path.join(work, "edges_%03d.ndjson" % ci)
-        with open(part, "w") as fh:
-            for e in es[off:off + CH]:
-                fh.write(json.dumps(e) + "\n")
-        r = vlib.run_tlc(SPEC, "LedgerEdges", "LedgerEdges.cfg", os.path.join(work, "tlc_%03d" % ci), files={"edges.ndjson": part},
-                         timeout=1500, heap="6g")
-        if r["violated"] or r["distinct"] != len(es[off:off + CH]):
-            raise Infra("edge oracle failed or skipped edges: " + r["tail"][-1500:])
-        states += r["distinct"]
-        cmd = r["cmd"]
-        for m in r["mismatches"]:
-            parts = [x.strip().strip('"') for x in m.strip("<>").split(",")]
-            mism.append((off + int(parts[2]) - 1, parts[3], parts[4]))
+    mism, states, cmd = validate_edges(work, es)
     dead = 0
     for idx, mut, reason in mism:
         e = es[idx]
